@@ -144,4 +144,22 @@ PROPS = {
             "unreadable = invalid UTF-8 (chmod is useless as root); invalid = $INCLUDE or a malformed record",
         ],
     },
+    "C14": {
+        "modules": ["Resolved.Props.C14"],
+        "streams": [
+            {"name": "hosts", "quick": 60000, "thorough": 4000000},
+            # every shard replays the exhaustive part first (256 zero patterns x 4 value sets x
+            # {show, parse(show), parse(alt form)} + boundary tables), then random strings
+            {"name": "ip", "quick": 60000, "thorough": 4000000},
+        ],
+        "trivial_tags": [r":bad-op", r"hosts\.parse:ok/0/$"],
+        "assumptions": [
+            "std::net::{IpAddr::from_str, Display for Ipv4Addr/Ipv6Addr} are re-implemented in Lean (Model/Hosts.lean, namespace Ip, after library/core/src/net/{parser.rs, ip_addr.rs} of the pinned nightly) and tied to std by the `ip` stream only; print-then-parse is PROVED of that model for every address",
+            "D-H1: a single malformed field followed by white space (`garbage `) is CouldNotParseAddress although the line maps nothing, while `garbage` is ignored unexamined - the property text is silent, the specification follows the implementation",
+            "D-H2: a `%` after the first character of the first field skips the line without examining the address part; a leading `%` is an ordinary character",
+            "D-H3: non-ASCII text is an error where the reader reaches it, including the first character behind a run of `#`s",
+            "D-H4: the text round trip is claimed for HostsWF data only (labels of ASCII octets other than white space, `#`, `.`)",
+        ],
+        "trusted_extra": ["Lean model of std::net parser/printer (validated exhaustively over zero-group patterns x boundary values and by random strings, not verified against the std source)"],
+    },
 }
